@@ -19,8 +19,10 @@ def main():
     lib = Lib()
     contracts = {c.target: c for c in REGISTRY.values() if c.name == c.target}
     for name, C in REGISTRY.items():
-        if filt not in name:
+        if filt not in name or C.assumed:
             continue
+        from .worker import make_lib
+        lib = make_lib(C)
         for case, specs in C.cases():
             t0 = time.time()
             run = Run(C, case, reg, contracts, lib)
